@@ -90,29 +90,30 @@ type violation struct {
 }
 
 type Ctx struct {
-	Prop     string
-	Tier     string
-	Seed     int64
-	Root     string // /verif
-	Scratch  string // per-run scratch dir (removed by Finish)
-	Level    string
-	Rule     string
-	Only     string // replay filter: run only the case with this id ("" = all)
-	Assume   []string
-	Trusted  []string
-	start    time.Time
-	mu       sync.Mutex
-	evals    int
-	distinct map[string]bool
-	samples  []interface{}
-	maxSamp  int
-	counters map[string]int64
-	sets     map[string]map[string]bool
-	incon    []string
-	viol     []violation
-	known    map[string]Finding
-	knownHit map[string]int
-	extra    map[string]interface{}
+	Prop       string
+	Tier       string
+	Seed       int64
+	Root       string // /verif
+	Scratch    string // per-run scratch dir (removed by Finish)
+	Level      string
+	Rule       string
+	Only       string // replay filter: run only the case with this id ("" = all)
+	NoEvidence bool   // replay runs do not rewrite the evidence file
+	Assume     []string
+	Trusted    []string
+	start      time.Time
+	mu         sync.Mutex
+	evals      int
+	distinct   map[string]bool
+	samples    []interface{}
+	maxSamp    int
+	counters   map[string]int64
+	sets       map[string]map[string]bool
+	incon      []string
+	viol       []violation
+	known      map[string]Finding
+	knownHit   map[string]int
+	extra      map[string]interface{}
 }
 
 func (c *Ctx) Thorough() bool { return c.Tier == "thorough" }
@@ -328,11 +329,17 @@ func (c *Ctx) Finish() int {
 	}
 	buf, _ := json.MarshalIndent(ev, "", " ")
 	os.MkdirAll(filepath.Join(c.Root, "evidence"), 0755)
-	ioutil.WriteFile(filepath.Join(c.Root, "evidence", c.Prop+".json"), buf, 0644)
+	if !c.NoEvidence {
+		ioutil.WriteFile(filepath.Join(c.Root, "evidence", c.Prop+".json"), buf, 0644)
+	}
 
 	if len(c.viol) > 0 {
 		fmt.Printf("RESULT property=%s violated (%d distinct violations, %d evaluations)\n", c.Prop, len(c.viol), c.evals)
 		return 1
+	}
+	if c.Only != "" {
+		fmt.Printf("RESULT property=%s replay of case %s: no violation reproduced (evaluations=%d)\n", c.Prop, c.Only, c.evals)
+		return 0
 	}
 	if len(c.distinct) < 2 || c.evals == 0 {
 		fmt.Printf("INCONCLUSIVE property=%s the monitors observed too little (evaluations=%d distinct=%d inconclusive_cases=%d)\n", c.Prop, c.evals, len(c.distinct), len(c.incon))
